@@ -98,13 +98,13 @@ func runC16(c *eng.Ctx) {
 		g := p.GraphOf(f)
 		expire := p.Method(pkgVault, "GroupedVault", "ExpireGroupMetrics")
 		group := f.Obj.Type().(*types.Signature).Params().At(0)
-		var loop *ast.RangeStmt
-		eng.InspectNoLit(f.Decl.Body, func(n ast.Node) bool {
-			if rs, ok := n.(*ast.RangeStmt); ok && loop == nil {
-				loop = rs
+		opsPrm := f.Obj.Type().(*types.Signature).Params().At(1)
+		var loop ast.Stmt
+		for _, el := range elemLoopsOver(info, f.Decl.Body, func(x ast.Expr) bool { return eng.SelObj(info, x) == opsPrm }) {
+			if loop == nil {
+				loop = el.Stmt
 			}
-			return true
-		})
+		}
 		isExpire := func(n *eng.GNode) bool {
 			return len(g.CallsAt(n, func(o types.Object, call *ast.CallExpr) bool {
 				return o == expire && len(call.Args) == 1 && eng.SelObj(info, call.Args[0]) == group
@@ -112,7 +112,7 @@ func runC16(c *eng.Ctx) {
 		}
 		ok := false
 		if loop != nil {
-			if head := g.NodeOf(loop.X); head != nil {
+			if head := loopBodyEntryOf(g, loop); head != nil {
 				ok = g.OnlyVia(head, isExpire, nil)
 			}
 		}
@@ -407,19 +407,12 @@ func runC16(c *eng.Ctx) {
 		info := f.Pkg.TypesInfo
 		g := p.GraphOf(f)
 		prm := hf.Type().(*types.Signature).Params().At(0)
-		var loop *ast.RangeStmt
-		eng.InspectNoLit(f.Decl.Body, func(n ast.Node) bool {
-			if rs, ok := n.(*ast.RangeStmt); ok && eng.SelObj(info, rs.X) == prm {
-				loop = rs
-			}
-			return true
-		})
 		ok := false
-		if loop != nil && loop.Value != nil {
-			elem := eng.SelObj(info, loop.Value)
+		for _, el := range elemLoopsOver(info, f.Decl.Body, func(x ast.Expr) bool { return eng.SelObj(info, x) == prm }) {
+			el := el
 			writesElem := func(n *eng.GNode) bool {
 				return len(g.CallsAt(n, func(o types.Object, call *ast.CallExpr) bool {
-					return o != nil && (o.Name() == "Write" || o.Name() == "WriteString") && len(call.Args) == 1 && eng.UsesObj(info, call.Args[0], elem, false)
+					return o != nil && (o.Name() == "Write" || o.Name() == "WriteString") && len(call.Args) == 1 && usesElem(el, call.Args[0])
 				})) > 0
 			}
 			writesSep := func(n *eng.GNode) bool {
@@ -427,10 +420,10 @@ func runC16(c *eng.Ctx) {
 					if o == nil || (o.Name() != "Write" && o.Name() != "WriteByte" && o.Name() != "WriteString") || len(call.Args) != 1 {
 						return false
 					}
-					return !eng.UsesObj(info, call.Args[0], elem, false)
+					return !usesElem(el, call.Args[0])
 				})) > 0
 			}
-			ok = loopNoEarlyExit(g, loop) && loopBodyMustPass(g, loop, writesElem) && loopBodyMustPass(g, loop, writesSep)
+			ok = loopNoEarlyExit(g, el.Stmt) && loopBodyMustPass(g, el.Stmt, writesElem) && loopBodyMustPass(g, el.Stmt, writesSep)
 		}
 		r8.Check(ok, f.Key, f.Decl.Pos(), "value and separator hashed for every label", "some label values (or their separators) can be left out of the hash: label vectors that differ only in which label carries a value collide, two distinct series of one batch are merged into one")
 	}
